@@ -882,6 +882,14 @@ class TextXVisitor(RRELVisitor):
                 elif repeat_op == "+":
                     rule = OneOrMore(nodes=[expr])
                 else:
+                    if isinstance(expr, RuleCrossRef):
+                        line, col = self.grammar_parser.pos_to_linecol(node.position)
+                        raise TextXSemanticError(
+                            "Unordered group operator (#) can be applied to a "
+                            f"parenthesized group only, not to a rule reference at {(line, col)}.",
+                            line,
+                            col,
+                        )
                     rule = UnorderedGroup(nodes=expr.nodes)
 
                 if modifiers:
